@@ -21,6 +21,7 @@ RULE = ("dry run of a deterministic problem records the evaluation sequence "
 RULE += ("  Also: trigger kind 'trust-region point followed by a second-order correction'; requests of the form (target, feasibility_tol) = (f_k, v_k) so that infeasible points trigger; small filters; callbacks that return truthy values but never raise; targets at / beyond the extreme barrier with NaN / inf / huge objective values (-inf <= target satisfies, NaN does not).")
 RULE += (" Requests are judged with the settings as the user STATED them (not the solver's completed options); family tinyviol: a constraint violated by exactly 5e-16 (injected) with tolerance 0.")
 RULE += (' NaN objective values with ordinary targets (-50, 0.5, 50, 1e6).')
+RULE += (" Family ulptarget: the target is a record that improves on the previous one by at most 64 ulps.")
 ASSUMPTIONS = [
     "the solver is deterministic (C11), so the rerun reproduces evaluations "
     "1..k bitwise; this is itself verified (prefix comparison) and a mismatch "
@@ -34,7 +35,9 @@ REQUIRED = {"eval.post": 1000, "triggered_reruns": 100, "kind:tr": 10,
 MIN_NONTRIVIAL = {"quick": 15, "thorough": 60}
 PLAN = [("target", 450, 7000), ("callback", 350, 5000), ("feas", 250, 4000),
         ("multi", 150, 2500), ("soc", 400, 5000), ("bartarget", 150, 2000),
-        ("tinyviol", 60, 600)]
+        ("tinyviol", 60, 600), ("ulptarget", 60, 800)]
+
+EPS = np.finfo(float).eps
 
 
 def cases(tier, seed):
@@ -144,6 +147,22 @@ def run_case(case, judge="c09"):
         return e2e.record(case, e2e.attach(viols, spec, rec), nt=nt,
                           tags=tags, counts=counts,
                           skipped=bool(info.get("ambiguous")))
+    elif fam == "ulptarget":
+        # a run converging to a minimum value that is not 0: late records
+        # improve on the previous one by a few ulps only; the target is such
+        # a record (it satisfies the request however small the improvement,
+        # and it is the point returned)
+        n = int(rng.integers(1, 3))
+        qm = rng.uniform(-1, 1, (n, n))
+        qm = qm @ qm.T + 0.2 * np.eye(n)
+        spec = {"n": n, "obj": {"kind": "quad", "Q": qm.tolist(),
+                                "c": rng.uniform(-1, 1, n).tolist(),
+                                "f0": float(rng.choice([1.0, -3.0, 40.0]))},
+                "x0": rng.uniform(-2, 2, n).tolist(), "con_kind": "none",
+                "options": {"maxfev": 400, "radius_final": float(
+                    10.0 ** rng.uniform(-11, -8))}}
+        force_kind = "ulp"
+        fam = "target"
     else:
         spec = base_spec(rng, fam)
     dry = mrun.run(spec)
@@ -164,6 +183,7 @@ def run_case(case, judge="c09"):
         want_kind = force_kind or str(rng.choice(["init", "tr", "soc", "geo",
                                                   "first"]))
         cands = []
+        ulp_gain = set()
         best = math.inf
         use_tol = fam != "callback" and (force_kind == "tr_before_soc"
                                          or rng.random() < 0.25)
@@ -188,10 +208,19 @@ def run_case(case, judge="c09"):
             if fam == "callback" or (feasible and math.isfinite(r["f"])
                                      and r["f"] < best):
                 cands.append(r)
+                if math.isfinite(best) and best - r["f"] <= 64 * EPS * abs(
+                        r["f"]):
+                    ulp_gain.add(r["i"])
             if feasible and math.isfinite(r["f"]):
                 best = min(best, r["f"])
         if want_kind == "first":
             pick = [r for r in cands if r["i"] == 0]
+        elif want_kind == "ulp":
+            pick = [r for r in cands if r["i"] in ulp_gain]
+            if not pick:
+                return e2e.record(case, [], tags=tags + ["dry:no_candidate"],
+                                  counts=counts, skipped=True)
+            counts["ulp_gain_targets"] = 1
         elif want_kind == "tr_before_soc":
             pick = [r for r in cands if r["kind"] == "tr" and r["i"] > 0
                     and r["i"] + 1 < len(table)
